@@ -5,8 +5,8 @@ package clone
 // C09: GoldenGate returns exactly the plasmids the overhangs allow.
 //
 // verif:bound C09 designed assemblies with 1..2 (quick) / 1..3 (thorough) junctions, 1..2 alternative fragments per slot (at most 4 fragments), every fragment supplied in either orientation, two input orders, an optional dead-end decoy; fragment interiors one symbolic base (ACGT) plus a fixed tag base each; junction labels distinct, non-palindromic and free of reverse-complement pairs
-// verif:bound C09 schedules at synchronisation-point granularity: designed-ring harness default run-to-block schedule (quick) plus LIFO mirror and 1 deviation for pools of at most 2 fragments (thorough); scheduling-independence harness on concrete pools of 1..3 fragments: default, LIFO mirror and all schedules deviating at <= 2 (quick) / 3 (thorough) of the first 24 choice points
-// verif:bound C09 termination: pools of 3 fragments whose overhangs close a cycle that excludes the seed; call depth / goroutine count as the termination obligation
+// verif:bound C09 schedules at synchronisation-point granularity: designed-ring harness default run-to-block schedule (quick) plus LIFO mirror and 1 deviation for pools of at most 2 fragments (thorough); scheduling-independence harness on concrete pools of 1..3 fragments: default, LIFO mirror and all schedules deviating at <= 2 (quick) / 3 (thorough) of the first 24 choice points; two-ring pools: deviations at <= 2 points, 2 (quick) / 2..3 (thorough) alternatives
+// verif:bound C09 termination: pools of 3 fragments whose overhangs close a cycle that excludes the seed (default schedule); call depth / goroutine count as the termination obligation
 // verif:bound C09 two-simulations clause: a two-fragment ring ligated, then the same pool or a one-fragment self-closing pool ligated in the same process (symbolic interiors): each simulation returns its own ring
 // verif:bound C09 library clause: a concrete pool of 5 (quick) / 6 (thorough) junctions with 3 alternatives per slot (243 / 729 rings, 1215 / 4374 construct deliveries), mixed orientations; a closed computation executed by the engine (termination, count and distinctness of the rings; no symbolic input)
 // verif:assume C09 seqhash.Hash is executed from SSA with BLAKE3 as an assumed collision-free uninterpreted function (see C04/C05)
@@ -168,12 +168,12 @@ func Harness_C09_GoldenGate() {
 // two (quick) / up to four (thorough) distinct rings on concrete pools: whatever the arrival order of
 // the duplicates, every ring is returned exactly once
 func Harness_C09_TwoRingsSchedules() {
-	vSchedules(vTier(2, 3))
 	k := 1 + vChoice(2)
 	na := 2
 	if vTier(0, 1) == 1 {
 		na = 2 + vChoice(2)
 	}
+	vSchedules(2) // thorough adds a third alternative, not a third deviation
 	var frags []Fragment
 	var rings []string
 	interiors := []string{"AC", "GG", "TA", "CA"}
@@ -211,7 +211,7 @@ func Harness_C09_TwoRingsSchedules() {
 
 // pools whose overhangs close a cycle that excludes the seed
 func Harness_C09_Termination() {
-	vSchedules(vTier(0, 1))
+	vSchedules(0)
 	a, b, c := vBytes(2, "ACGT"), vBytes(2, "ACGT"), vBytes(2, "ACGT")
 	mk := func(interior, j0, j1 string) Fragment {
 		if vChoice(2) == 1 { // supplied in the opposite orientation
